@@ -62,6 +62,9 @@ CHECKS = {
     "C13": dict(engine="dsched", technique="property-based testing: Hypothesis-generated defer_rcu programs (function/argument bit patterns incl. marker, low-bit and odd-address values; queue size 8 via hook so the ring wraps and flushes; barriers, background reclaimer, re-registration, readers) + schedules + futex faults on a controlled-concurrency engine; per-thread FIFO/exact-argument oracle, grace-period oracle, barrier-completeness and termination oracles",
                 text="Every invocation is matched against the next queued (function, argument) pair of its thread; sections open at defer_rcu() must have ended; barrier/unregister completeness; reclaimer-only progress; re-registration. Exploration over inputs (bit patterns, sequence lengths relative to the ring) and schedules.",
                 ref="DESIGN.md §6 C13, §10"),
+    "C17": dict(engine="dsched", technique="property-based testing with a controlled scheduler: Hypothesis-generated concurrent programs on queues/stacks, the hash table and read-side primitives; at a generated step every other thread is suspended wherever it is and one thread runs documented wait-free/lock-free/non-blocking operations solo; oracle: returns, no wait hint reached, own-step bound, WOULDBLOCK only with an operation in flight",
+                text="The schedule (including the suspension point of every other thread) is part of the generated case, so 'finishes wherever other threads are suspended' is observed directly: the solo operation must return without ever calling caa_cpu_relax/poll/futex-wait/contended mutex and within a step bound. Exploration over suspension points.",
+                ref="DESIGN.md §6 C17"),
 }
 NOT_YET = "check not built yet in this session (planned: see DESIGN.md §6)"
 
